@@ -1,0 +1,32 @@
+//go:build verif
+
+// Round 5, area I: records of the daemon's life-cycle calls, used by the start-up contracts of apps/nsqd (C05 C06).
+// Comment-only file. The ghosts are set by `onreturn` lines added to the contracts of LoadMetadata (zz_contracts_gmeta_verif.go),
+// Exit (zz_contracts_gmeta_verif.go) and New (zz_contracts_r4B_verif.go); nothing else in package nsqd reads them.
+
+package nsqd
+
+// LoadMetadata calls: how many, on which daemon, what the last one returned, and how many PersistMetadata calls had been made
+// (jPersistCalls) when it returned - "load BEFORE persist" is r5ILoadSawPersists == the count before both.
+//@ ghost r5ILoads int
+//@ ghost r5ILoadOf *NSQD
+//@ ghost r5ILoadErr error
+//@ ghost r5ILoadSawPersists int
+//@ ghostgroup r5ILoads, r5ILoadOf, r5ILoadErr, r5ILoadSawPersists
+// Exit calls: how many, on which daemon.
+//@ ghost r5IExits int
+//@ ghost r5IExitOf *NSQD
+//@ ghostgroup r5IExits, r5IExitOf
+// New calls: how many, with which options object, and how many options.Resolve calls (r5IResolves, r5I.spec) had been made before.
+//@ ghost r5INews int
+//@ ghost r5INewOpts *Options
+//@ ghost r5INewSawResolves int
+//@ ghostgroup r5INews, r5INewOpts, r5INewSawResolves
+
+// NewOptions: a new options object with the defaults; nothing that exists is written.
+//@ func NewOptions() *Options
+//@   props C06
+//@   ensures[fresh-options] result != nil && fresh(result)
+//@   modifies
+//@   keeps r5IResolves, r5IResolvedOpts, r5IResolvedFlags
+//@   nochan
